@@ -1176,7 +1176,7 @@ pub fn cases(kind: &str, tier: &str, seed: u64) -> Vec<Value> {
                 v.push(json!({"t":"amf","shape":"flat","byte":5,"len":16777215}));
                 v.push(json!({"t":"amf","shape":"flat","byte":1,"len":16777215}));
             }
-            for _ in 0..(if thorough { 150000 } else { 600 }) {
+            for _ in 0..(if thorough { 600000 } else { 600 }) {
                 v.push(json!({"t":"amf","shape":"garbage","len":*rng.pick(&[10u64, 100, 1000, 20000]),"seed":rng.next() >> 1}));
             }
         }
@@ -1194,7 +1194,7 @@ pub fn cases(kind: &str, tier: &str, seed: u64) -> Vec<Value> {
                 };
                 if keep { v.push(c); }
             }
-            let reps = if thorough { 24 } else { 1 };
+            let reps = if thorough { 96 } else { 1 };
             for _ in 0..reps {
                 for class in 0..11u64 {
                     let n = if class == 8 { if thorough { 3000 } else { 400 } } else if class >= 9 { if thorough { 600 } else { 120 } } else if class == 4 { 200 } else if class == 7 { 4 } else { 12 };
